@@ -13,6 +13,9 @@ from .common import Acc, relevant_mutations, outcome_sig
 
 PROP = 'C03'
 
+BFS = {'thorough': 4}          # depth of the explicit-state search over arbitrary action sequences (fbmc/bfs.py)
+BFS_CLAUSES = ('foreign.',)
+
 
 def spaces(tier):
     small = dict(paths=['a', 'd', 'd/x', 'd/y', 'd/e/z'], bf_modes=['ok', 'rb', 'ra'], sb_modes=['ok'])
